@@ -330,7 +330,8 @@ pub fn judge_c01(b: &Built, obs: &CaseObs, bad: &mut Vec<Bad>, stats: &mut BTree
 
 /// C02 oracle for one case.
 pub fn judge_c02(b: &Built, obs: &CaseObs, bad: &mut Vec<Bad>, stats: &mut BTreeMap<String, u64>) {
-    let reg = b.ok.state.type_registry();
+    let state_guard = b.ok.state.lock().unwrap();
+    let reg = state_guard.type_registry();
     // declared attributes by item path
     let mut declared: BTreeMap<String, (Option<isize>, Option<isize>, bool)> = BTreeMap::new();
     for (mp, m) in &b.mods {
@@ -750,7 +751,8 @@ pub fn run(ctx: &mut Ctx, which: &str) {
                 Err(_) => ctx.count("opaque_type_cases_rejected", 1),
                 Ok(ok) => {
                     ctx.count("opaque_type_cases_accepted", 1);
-                    let reg = ok.state.type_registry();
+                    let state_guard = ok.state.lock().unwrap();
+                    let reg = state_guard.type_registry();
                     let got = reg.get(&ItemPath::from("kq_opaque::Opaque")).map(|i| (i.size(), i.alignment()));
                     let holder = reg.get(&ItemPath::from("kq_opaque::Holder")).and_then(|i| i.size());
                     let want_holder = 3 * size + 4 + (align.max(4) - (3 * size + 4) % align.max(4)) % align.max(4);
